@@ -22,9 +22,13 @@ def _same_components(a, b, suffix_aware):
     return sa.path == sb.path and sa.query == sb.query and sa.fragment == sb.fragment
 
 
+def _odd_brackets(u):
+    return u.count("[") > 1 or u.count("]") > 1
+
+
 def url_round_trip(u, suffix_aware, via_stems):
-    if "|" in u:
-        return True
+    if "|" in u or _odd_brackets(u):
+        return True           # '|' excluded by the property; nested brackets are not an IP literal
     try:
         ref = _parts(ensure_protocol(u))
     except ValueError:
@@ -41,7 +45,7 @@ def url_round_trip(u, suffix_aware, via_stems):
 
 
 def lru_is_stable(u, suffix_aware):
-    if "|" in u:
+    if "|" in u or _odd_brackets(u):
         return True
     try:
         _parts(ensure_protocol(u))
@@ -52,7 +56,7 @@ def lru_is_stable(u, suffix_aware):
 
 
 def serialization_inverts(u, suffix_aware):
-    if "|" in u:
+    if "|" in u or _odd_brackets(u):
         return True
     try:
         _parts(ensure_protocol(u))
